@@ -822,13 +822,17 @@ def _splice_round(w, sc, res, rno):
                     'C20|nested include target opened',
                     'an include line inside an included file was followed: '
                     'opened %s' % bad_nested)
-            elif opens != want_opens:
+            elif not set(opens) <= set(want_opens):
+                # only files that the cart's own include lines name may be
+                # read (how often and in which order is the implementation's
+                # business: a per-call cache that reads a twice-included file
+                # once is fine)
                 outcome = 'open-history'
                 core.violation(
                     res, 'C20', 'C20:open-history',
-                    'C20|open history differs',
-                    'files opened for reading: %s; expected exactly %s' % (
-                        opens, want_opens))
+                    'C20|unexpected file opened',
+                    'files opened for reading: %s; only %s may be read' % (
+                        opens, sorted(set(want_opens))))
             else:
                 # (2) splice
                 if sc['route'] == 'listlua':
@@ -985,9 +989,9 @@ RULE = {
            'reference encoders, 1-5 tabs) in the cart directory and '
            'sub-directories, tab selectors 0..tabs+1, include lines inside '
            'included files (target missing / present), ENOENT on a target, '
-           'cwd and argument style varied; oracle: files opened for reading '
-           '== the cart then exactly its own targets in order, nested targets '
-           'never opened; loaded code lines == reference splice (empty lines '
+           'cwd and argument style varied; oracle: only the cart and the '
+           'targets of its own include lines are opened for reading, nested '
+           'targets never; loaded code lines == reference splice (empty lines '
            'dropped; for a .lua target without final newline both glued and '
            'separated readings accepted); a missing target fails the load. '
            'distinct = distinct tuples (route, number and kinds of includes, '
